@@ -6,9 +6,11 @@ import SquidModel.Properties.C20
 #print axioms SquidModel.C20.non_purging_method_purges_nothing
 #print axioms SquidModel.C20.absolute_path_location_purged
 #print axioms SquidModel.C20.same_host_location_purged_exact
+#print axioms SquidModel.C20.canonical_same_host_location_purged
 #print axioms SquidModel.C20.other_host_location_ignored
 #print axioms SquidModel.C20.sameUrlHosts_sound
 #print axioms SquidModel.C20.purged_urls_come_from_request_or_headers
+#print axioms SquidModel.C20.purged_urls_stay_on_the_request_host
 #print axioms SquidModel.C20.relative_location_purged
 #print axioms SquidModel.C20.relative_location_counterexample
 #print axioms SquidModel.C20.purged_url_never_served_stale_partial
